@@ -534,7 +534,11 @@ fn check_inner(line: &str, res: &str, t: &[&str], mut m: Vec<String>) -> Vec<Str
                     match disp { Ok(dsp) => if dsp.as_bytes() != &bytes[..] { m.push("FAIL C01 Display differs from to_writer".into()); }, Err(_) => m.push("FAIL C01 Display failed".into()) }
                 } else {
                     let s = lexpr::to_string_custom(&v, print_opts(t[1])).unwrap();
-                    if s.as_bytes() != &bytes[..] { m.push("FAIL C07 to_string_custom differs from to_writer_custom".into()); }
+                    if s.as_bytes() != &bytes[..] {
+                        m.push("FAIL C07 to_string_custom differs from to_writer_custom".into());
+                        m.push(format!("FAIL C17 the String returned by the printer ({:?}) is not identical to the bytes written to a sink ({:?})", s, String::from_utf8_lossy(&bytes)));
+                    }
+                    if lexpr::to_vec_custom(&v, print_opts(t[1])).unwrap() != bytes { m.push("FAIL C07 to_vec_custom differs from to_writer_custom".into()); }
                     if std::str::from_utf8(s.as_bytes()).is_err() { m.push("FAIL C17 to_string_custom returned invalid UTF-8".into()); }
                 }
             } else {
@@ -772,7 +776,9 @@ fn check_inner(line: &str, res: &str, t: &[&str], mut m: Vec<String>) -> Vec<Str
             let (a, b) = res.split_once(" || ").unwrap_or(("", ""));
             let strip = |x: &str| -> Vec<String> { x.split(" | ").map(strip_pos).collect() };
             // the plain text is the reference: it must itself be a sequence of values
-            if !a.contains("err ") && !a.contains("panic") && strip(a) != strip(b) { m.push(format!("FAIL C12 trivia between tokens changed the result: {} vs {}", a, b)); }
+            // (either text may be the reference: trivia must neither break a sequence that parses nor repair one that does not)
+            let clean = |x: &str| !x.contains("err ") && !x.contains("panic");
+            if (clean(a) || clean(b)) && strip(a) != strip(b) { m.push(format!("FAIL C12 trivia between tokens changed the result: {} vs {}", a, b)); }
         }
         "prefix" => {
             let data = unhex(t[4]);
@@ -939,6 +945,11 @@ fn check_inner(line: &str, res: &str, t: &[&str], mut m: Vec<String>) -> Vec<Str
             let name_some = v.as_name().is_some();
             if name_some != (v.is_string() || v.is_symbol() || v.is_keyword()) { m.push("FAIL C20 as_name".into()); }
             if v.is_i64() != v.as_i64().is_some() || v.is_u64() != v.as_u64().is_some() || (v.is_f64() && (v.as_i64().is_some() || v.as_u64().is_some())) { m.push("FAIL C20 number predicates".into()); }
+            // as_f64: a float unchanged, an integer converted to the nearest double (Rust's `as f64` rounds to nearest-even)
+            let nearest = match (v.as_u64(), v.as_i64()) { (Some(n), _) => Some(n as f64), (None, Some(n)) => Some(n as f64), _ => None };
+            if let Some(want) = nearest {
+                if v.as_f64().map(f64::to_bits) != Some(want.to_bits()) { m.push(format!("FAIL C20 as_f64 of the integer {} is {:?}, the nearest double is {:e}", t[1], v.as_f64(), want)); }
+            }
         }
         "from" => {
             let p = parse_prim(t[1]);
@@ -1064,6 +1075,22 @@ pub fn depth_main(args: &[String]) -> i32 {
             "datum_iter" => { let t = text(n); let d = lexpr::datum::from_reader(t.as_bytes()).unwrap(); assert!(d.list_iter().unwrap().count() >= n); std::mem::forget(d); }
             #[cfg(feature = "full")]
             "to_value" => { let xs: Vec<u8> = (0..n).map(|i| (i % 10) as u8).collect(); let v = serde_lexpr::to_value(&xs).unwrap(); assert!(v.is_list()); std::mem::forget(v); }
+            // conversions that do not build a Vec: a long list in an alist entry the target struct does not
+            // know (skipped through IgnoredAny), IgnoredAny itself, and a self-describing target (untagged enum)
+            #[cfg(feature = "full")]
+            "from_value_skipped" => {
+                #[derive(serde_derive::Deserialize)] struct Known { a: u8 }
+                let v = build(n);
+                let al = Value::list(vec![Value::cons(Value::symbol("a"), 1), Value::cons(Value::symbol("extra"), v)]);
+                let k: Known = serde_lexpr::from_value(&al).unwrap(); assert_eq!(k.a, 1); std::mem::forget(al);
+            }
+            #[cfg(feature = "full")]
+            "from_value_ignored" => { let v = build(n); let _x: serde::de::IgnoredAny = serde_lexpr::from_value(&v).unwrap(); std::mem::forget(v); }
+            #[cfg(feature = "full")]
+            "from_value_untagged" => {
+                #[derive(serde_derive::Deserialize)] #[serde(untagged)] #[allow(dead_code)] enum U { Nums(Vec<u32>), Name(String) }
+                let v = build(n); let r: Result<U, _> = serde_lexpr::from_value(&v); let _ = r.is_ok(); std::mem::forget(v);
+            }
             #[cfg(feature = "full")]
             "from_value" => { let v = build(n); let xs: Vec<u8> = serde_lexpr::from_value(&v).unwrap(); assert_eq!(xs.len(), n); std::mem::forget(v); }
             _ => panic!("unknown depth op"),
